@@ -7,8 +7,11 @@ VERIF = os.path.dirname(os.path.dirname(os.path.abspath(__file__)))
 
 NOTE = ("Trusted: Coq 8.16.1 kernel + vm_compute (no native_compute); every theorem in coq/theories/Props/<id>.v is "
         "closed under the global context unless its evidence lists axioms; extraction with ExtrOcamlBasic only; "
-        "harness (generators, encoders, Fraction(float) comparison). pyndl is modelled by hand, not translated: the "
-        "tie to /repo is the differential correspondence run of this check on a fresh scratch build of /repo's working tree.")
+        "harness (generators, encoders, Fraction(float) comparison). The deciding models are written by hand: the "
+        "tie to /repo is the differential correspondence run of this check on a fresh scratch build of /repo's working tree; "
+        "for ndl.slice_list (C02) and the sampling loop of bandsample (C20) a fail-closed translator (tools/py2coq.py) "
+        "additionally turns the current source into a MiniPy term and the theorems about that term are re-checked on "
+        "every run; C02/C08/C18 check the sharing attributes of the OpenMP loops in the generated C.")
 
 CHECKS = {
  "C01": ("proof", "Theorems C01_dict / C01_kernel / C01_parallel_threading / C01_parallel_openmp / C01_policies / "
@@ -29,8 +32,10 @@ CHECKS = {
          "end to end C02_threading_workers_end_to_end / C02_openmp_workers_end_to_end: whatever the schedule of the threads' "
          "steps, the memory holds the sequential result. Correspondence X-sched-det: the real worker loop of ndl.ndl driven "
          "turn by turn by chosen schedules, step-aligned with the Coq machine (model 205). Partial: real preemption, the GIL, "
-         "libgomp and the memory model are observed (amplified runs + deadline), not modelled.",
-         "5 C02", "Coq proof (interleaving/row-locality, queue invariant, product machine, termination measure) + schedule-controlled step-aligned correspondence + amplified differential runs"),
+         "libgomp and the memory model are observed (amplified runs + deadline), not modelled. Source-derived: "
+         "SRC_slice_list_computes_model / _partition / _rejects_small_n about the MiniPy term translated from the current "
+         "source of ndl.slice_list. Checked assumption: every variable the prange loop of the generated C writes is private.",
+         "5 C02", "Coq proof (interleaving/row-locality, queue invariant, product machine, termination measure; source-derived theorems re-checked against the translated source) + schedule-controlled step-aligned correspondence + OpenMP sharing analysis of the generated C + amplified differential runs"),
  "C03": ("proof", "Theorems C03_learn_split, C03_chain (any k-way split = one pass, by induction on the chain), "
          "C03_dict_run_app / C03_dict_continue (dict_ndl from any weights it can be handed, lazily created rows), "
          "C03_kernel_continue / C03_kernel_from_any_weights (the kernel computes learn from ANY initial memory), "
@@ -54,8 +59,9 @@ CHECKS = {
          "for ANY partition of the rows and ANY interleaving (generic row-wise theory RowWise.v). The numpy method and dict_wh "
          "are compared with the same model on single-cue/single-outcome events. Correspondence X-wh incl. same-flavour "
          "continuation chains (also with permuted dimension columns; the WH half of C03). C08_*_workers_end_to_end: the "
-         "worker threads of the parallel region produce such an interleaving for every schedule.",
-         "5 C08", "Coq proof (generic row-local kernels, interleaving theorem) + exact-rational differential correspondence"),
+         "worker threads of the parallel region produce such an interleaving for every schedule. Checked assumption: every "
+         "variable the three prange loops of the generated C write is private.",
+         "5 C08", "Coq proof (generic row-local kernels, interleaving theorem) + exact-rational differential correspondence + OpenMP sharing analysis of the generated C"),
  "C14": ("proof", "Theorems C14_b2r_onehot / C14_r2b_onehot / C14_r2r_onehot: with one-hot tables given by injective maps the "
          "Widrow-Hoff rule read through the dimension renaming equals RWSpec.learn with alpha=1, beta1=beta2=eta, lambda=1 "
          "(cue repetitions allowed, outcomes unique per event - the necessity of that hypothesis is shown by an example); "
@@ -99,8 +105,10 @@ CHECKS = {
          "_members / _words_distinct, C20_band_size (|sample| <= sample_size, invariant on the accumulator, proven in full), "
          "C20_counter_roundtrip (+_map), with refuted lemmas for zero frequencies and dirty keys. Correspondence X-band: the "
          "shuffle is pinned from the test side; exact sample equality when the step is a dyadic double, the four predicates on "
-         "every case; counter files incl. the '' key.",
-         "5 C20", "Coq proof (loop invariant, termination measure, text round trip) + differential correspondence with pinned shuffle"),
+         "every case; counter files incl. the '' key. Source-derived: SRC_bandsample_loop_computes_model / _terminates about the "
+         "MiniPy term translated from the current source of the sampling loop (it computes Band.band_loop and ends within "
+         "3*len+2 iterations for every population).",
+         "5 C20", "Coq proof (loop invariant, termination measure, text round trip; source-derived theorems re-checked against the translated source) + differential correspondence with pinned shuffle"),
  "C12": ("proof", "Theorems C12_matrix (every cell = RWSpec.act of the labelled weights over the prepared cues: each cue once "
          "under True/None, with multiplicity under False, empty set -> 0; for 1 process and ANY pool run), C12_paths_agree / "
          "C12_paths_agree_dict, C12_missing_cue / C12_first_bad_event / C12_dict_errors (which exception, when), "
@@ -133,8 +141,9 @@ CHECKS = {
          "deviation iff constant/NaN column). Correspondence X-corr: the kernel called directly with dyadic statistics "
          "(exact), the wrapper on integer matrices incl. small-magnitude columns (r^2 within 1e-12 of the exact value, sign, "
          "cross-check against the reference), all layouts, n_jobs 1..32, chunksize 1..50, degenerate columns at every "
-         "position. Partial: numpy mean/std and NaN propagation are trusted.",
-         "5 C18", "Coq proof (field algebra over Qc, partition of the event range) + exact / tight-tolerance differential correspondence"),
+         "position; the same array objects used before with other contents. Checked assumption: every variable the prange "
+         "loop of the generated C writes is private. Partial: numpy mean/std and NaN propagation are trusted.",
+         "5 C18", "Coq proof (field algebra over Qc, partition of the event range) + exact / tight-tolerance differential correspondence + OpenMP sharing analysis of the generated C"),
  "C19": ("proof", "Theorems C19_sort_perm_invariant / C19_walk_order_irrelevant, C19_cleaning, C19_imap_ordered (every worker "
          "count and pool schedule delivers in task order), C19_output, C19_missing_recorded, C19_never_overwrites, with the "
          "pre-repair logic refuted (C19_missing_crashes_refuted). gzip/ElementTree are oracles: the harness writes the XML. "
